@@ -76,7 +76,7 @@ func verifClient() *mqtt.Client {
 
 func verifPublish() packets.Packet {
 	return packets.Packet{FixedHeader: packets.FixedHeader{Type: packets.Publish, Qos: 2, Retain: true, Dup: true}, PacketID: 777, TopicName: "x:y/z", Payload: []byte("payload"),
-		Origin: "origin-client", Created: 1234567, ProtocolVersion: 5,
+		Origin: "origin-client", Created: 1234567, Expiry: 1234567 + 60, ProtocolVersion: 5,
 		Properties: packets.Properties{PayloadFormat: 1, PayloadFormatFlag: true, MessageExpiryInterval: 60, ContentType: "text/plain", ResponseTopic: "reply/to", CorrelationData: []byte("corr"),
 			User: []packets.UserProperty{{Key: "k", Val: "v"}}}}
 }
@@ -138,6 +138,19 @@ SETUP
 	if got, _ = h.StoredClients(); len(got) != 0 {
 		t.Fatalf("VERIF-REPLAY-FAIL {{OBLIGATION}}: an expiring disconnect left %d client records", len(got))
 	}
+	// a connection whose session was taken over: its disconnect event writes the record like any other (every back end
+	// does) and must not delete it, whatever the expire argument says
+	old := verifClient()
+	h.OnSessionEstablished(old, packets.Packet{})
+	old.Properties.Props.SessionExpiryInterval = 9
+	old.Stop(packets.ErrSessionTakenOver)
+	h.OnDisconnect(old, nil, true)
+	if got, _ = h.StoredClients(); len(got) != 1 {
+		t.Fatalf("VERIF-REPLAY-FAIL {{OBLIGATION}}: the disconnect of a taken-over connection left %d client records (want 1: the session lives on)", len(got))
+	}
+	if got[0].Properties.SessionExpiryInterval != 9 {
+		t.Fatalf("VERIF-REPLAY-FAIL {{OBLIGATION}}: the disconnect event of a taken-over connection did not write the client record: expiry interval %d s read back, 9 s in the session (the other back ends write it)", got[0].Properties.SessionExpiryInterval)
+	}
 }
 '''
 
@@ -175,6 +188,10 @@ MSGCHECK = '''	if r.TopicName != pk.TopicName || string(r.Payload) != "payload" 
 	}
 	if r.Origin != pk.Origin || r.Created != pk.Created || r.Client != cl.ID {
 		t.Fatalf("VERIF-REPLAY-FAIL {{OBLIGATION}}: stored message attribution %+v differs (origin %q created %d client %q)", r, pk.Origin, pk.Created, cl.ID)
+	}
+	if rp := r.ToPacket(); rp.Expiry != pk.Expiry || rp.ProtocolVersion != pk.ProtocolVersion {
+		t.Fatalf("VERIF-REPLAY-FAIL {{OBLIGATION}}: the version-%d message expires at %d; restored from the store it has protocol version %d and expiry %d: the housekeeping (expired := ProtocolVersion == 5 && Expiry > 0 && Expiry < now) never expires it by its message expiry interval",
+			pk.ProtocolVersion, pk.Expiry, rp.ProtocolVersion, rp.Expiry)
 	}
 	q, p := r.Properties, pk.Properties
 	if q.PayloadFormat != p.PayloadFormat || q.MessageExpiryInterval != p.MessageExpiryInterval || q.ContentType != p.ContentType || q.ResponseTopic != p.ResponseTopic || string(q.CorrelationData) != "corr" || len(q.User) != 1 {
